@@ -17,6 +17,21 @@ pub fn check(t: &Trace<'_>, out: &mut CaseOut) -> bool {
     if t.conns[conn].mps.is_some() {
         out.count("continuations_with_tight_packet_size_limit", 1);
     }
+    // a connection on which transport and application behaved (no fault, no end of stream, no
+    // operation given up) and the client nevertheless put something on the wire that is not a
+    // sequence of MQTT packets: no broker can answer the operations it accepted there, however
+    // often poll() is called, and the client does not notice
+    for ci2 in t.conns.iter().filter(|c| c.idx != conn) {
+        let c = &w.conns[ci2.idx];
+        let Some((off, why)) = &c.out.error else { continue };
+        let disturbed = w.events[ci2.ev_begin..ci2.ev_end.min(w.events.len())].iter().any(|e| matches!(e, Ev::Io { ans: IoAns::Err(_) | IoAns::Eof | IoAns::Zero, .. }))
+            || t.log.ops.iter().any(|o| o.conn == Some(ci2.idx) && matches!(o.outcome, Outcome::Cancelled | Outcome::Watchdog))
+            || t.log.ops.iter().any(|o| o.conn == Some(ci2.idx) && !matches!(o.kind, "poll" | "recv" | "pollreply") && matches!(o.outcome, Outcome::CallerTimeout));
+        if !disturbed {
+            out.violations.push(viol("C16", "C16/stream-corrupted-on-a-healthy-connection", format!("conn {}: nothing failed and no call was given up, yet the outbound stream stops being MQTT at offset {} ({}): the operations accepted on this connection cannot complete on it", ci2.idx, off, why)));
+            break;
+        }
+    }
     // spinning anywhere in the history is a violation of "no operation loops without bound"
     for (ev, e) in w.events.iter().enumerate() {
         if matches!(e, Ev::ClockSpin) {
